@@ -596,6 +596,7 @@ func runCLONE(c *Ctx) {
 	if clone == nil || toShared == nil {
 		return
 	}
+	clone = cloneBodyFn(c, clone)
 	A := c.Facts.Own()
 	// (1) every store to the root of the Mast that Clone returns is ToShared(load(m.root))#0
 	n := 0
@@ -1283,4 +1284,44 @@ func init() {
 				_ = f
 			}
 		}})
+}
+
+// cloneBodyFn: Clone itself, or the private helper that builds the copy when Clone only hands on that helper's first
+// result (`m2, _, err := m.snapshot(ctx); …; return m2, nil`).
+func cloneBodyFn(c *Ctx, clone *ssa.Function) *ssa.Function {
+	ei := ir.ErrorResultIndex(clone.Signature)
+	var h *ssa.Function
+	for _, r := range ir.Returns(clone) {
+		if ei >= 0 && ei < len(r.Results) && !ir.IsNilConst(r.Results[ei]) {
+			continue
+		}
+		v := ir.ResolveCell(r.Results[0])
+		if ld, ok := v.(*ssa.UnOp); ok && ld.Op == token.MUL {
+			// a local Mast filled from the helper's result: `*m2 = extract #0`
+			if al, ok := ld.X.(*ssa.Alloc); ok && al.Referrers() != nil {
+				for _, ref := range *al.Referrers() {
+					if st, ok := ref.(*ssa.Store); ok && st.Addr == ssa.Value(al) {
+						v = st.Val
+					}
+				}
+			}
+		}
+		ex, ok := v.(*ssa.Extract)
+		if !ok || ex.Index != 0 {
+			return clone
+		}
+		call, ok := ex.Tuple.(*ssa.Call)
+		if !ok {
+			return clone
+		}
+		g := ir.Callee(call.Call)
+		if g == nil || g.Blocks == nil || !isOwn(c.P, g) || (h != nil && g != h) {
+			return clone
+		}
+		h = g
+	}
+	if h == nil {
+		return clone
+	}
+	return h
 }
